@@ -26,12 +26,17 @@ import time
 from . import core
 
 
-def run_cases(ctx, mod, shard):
+def run_cases(ctx, mod, shard, sample=None):
     i, n = shard
     mod.setup(ctx)
     deadline = getattr(mod, 'SHARD_SOFT_DEADLINE_S', None)
     for idx, case in enumerate(mod.cases(ctx)):
-        if idx % n != i:
+        if sample is not None:
+            # the sample of all cases that is repeated in an interpreter started without assert statements
+            if (idx * 7919 + ctx.seed) % sample:
+                continue
+            ctx.hit('interpreter:assert-statements-stripped' if sys.flags.optimize else 'interpreter:sample-without-stripping')
+        elif idx % n != i:
             continue
         ctx.current_case = case
         try:
@@ -58,6 +63,7 @@ def main(argv=None):
     ap.add_argument('--jobs', type=int)
     ap.add_argument('--shard')
     ap.add_argument('--partial')
+    ap.add_argument('--sample', type=int)
     ap.add_argument('--no-evidence', action='store_true')
     args = ap.parse_args(argv)
     prop = args.prop.upper()
@@ -68,6 +74,10 @@ def main(argv=None):
     if args.replay:
         with open(args.replay) as fh:
             data = json.load(fh)
+        if data.get('optimize') and not sys.flags.optimize:
+            # the witness was observed in an interpreter without assert statements: replay it in one
+            return subprocess.call([sys.executable, '-W', 'ignore', '-m', 'gmv.run'] + list(argv if argv is not None else sys.argv[1:]),
+                                   cwd=core.VERIF, env=dict(os.environ, PYTHONOPTIMIZE='1'))
         ctx = core.Ctx(prop, data.get('tier', 'quick'), data.get('seed', seed))
         mod.setup(ctx)
         ctx.current_case = data['case']
@@ -94,7 +104,7 @@ def main(argv=None):
             pass
         i, n = (int(x) for x in args.shard.split('/'))
         ctx = core.Ctx(prop, args.tier, seed, (i, n))
-        run_cases(ctx, mod, (i, n))
+        run_cases(ctx, mod, (i, n), sample=args.sample)
         with open(args.partial, 'w') as fh:
             json.dump(ctx.dump(), fh)
         return 0
@@ -119,6 +129,18 @@ def main(argv=None):
                 procs.append((i, part, subprocess.Popen(
                     cmd, stdout=subprocess.DEVNULL, stderr=subprocess.PIPE, cwd=core.VERIF,
                     env=dict(os.environ, VERIF_SEED=str(pass_seed)))))
+            # one more process repeats a sample of all cases (one in OPT_SAMPLE) in an interpreter that was started without
+            # assert statements (PYTHONOPTIMIZE=1, inherited by the processes the cases start themselves): what the
+            # library promises does not depend on that option
+            k = getattr(mod, 'OPT_SAMPLE', {}).get(args.tier, 4 if args.tier == 'quick' else 8)
+            if k:
+                c.extra['asserts_stripped_sample'] = f'one case in {k}'
+                part = os.path.join(tmp, 'part_opt.json')
+                cmd = [sys.executable, '-W', 'ignore', '-m', 'gmv.run', prop, args.tier,
+                       '--shard', f'{jobs}/{jobs}', '--sample', str(k), '--partial', part]
+                procs.append((f'{jobs}(asserts stripped)', part, subprocess.Popen(
+                    cmd, stdout=subprocess.DEVNULL, stderr=subprocess.PIPE, cwd=core.VERIF,
+                    env=dict(os.environ, VERIF_SEED=str(pass_seed), PYTHONOPTIMIZE='1'))))
             t_end = time.time() + timeout
             for i, part, p in procs:
                 try:
